@@ -204,9 +204,9 @@ class DistanceMatcher(BaseMatcher):
         logprob = -d_t ** 2 / beta
 
         # Penalties
-        if prev_m.edge_m.label == edge_m.label:
+        if prev_m.edge_m.labels == edge_m.labels:
             # Staying in same state
-            if self.avoid_goingback and edge_m.key == prev_m.edge_m.key and edge_m.ti < prev_m.edge_m.ti:
+            if self.avoid_goingback and edge_m.labels == prev_m.edge_m.labels and edge_m.ti < prev_m.edge_m.ti:
                 # Going back on edge (direction is from p1 to p2 of the segment)
                 logprob += self.gobackonedge_factor_log  # Prefer not going back
         elif (prev_m.edge_m.l1, prev_m.edge_m.l2) == (edge_m.l2, edge_m.l1):
@@ -221,7 +221,7 @@ class DistanceMatcher(BaseMatcher):
                 # Goin back on state
                 going_back = False
                 for m in prev_m.prev:
-                    if edge_m.label == m.edge_m.label:
+                    if edge_m.labels == m.edge_m.labels:
                         going_back = True
                         break
                 if going_back:
